@@ -158,6 +158,9 @@ def build_coq(pid, log):
     if bad_close:
         res["broken"].append("Properties/%s.v: theorems not closed by `exact`: %s" % (pid, [t[0] for t in bad_close]))
         res["proof_ok"] = False
+    if res["proof_ok"] and not thms:
+        res["proof_ok"] = False
+        res["broken"].append("Properties/%s.v states no theorem" % pid)
     if res["proof_ok"]:
         res["discharged"] = len(thms)
         rc, out = sh("timeout 600 coqc -Q . K -w -notation-overridden %s -o /dev/null 2>&1" % prop_v, cwd=COQ, shell=True)
